@@ -197,22 +197,22 @@ def gauss(dim: int, order: Union[int, str]) -> tuple[np.ndarray, np.ndarray]:
                 ),
                 np.array(
                     [
-                        (18.0 - np.sqrt(30.0)) / 36.0,
-                        (18.0 + np.sqrt(30.0)) / 36.0,
-                        (18.0 + np.sqrt(30.0)) / 36.0,
-                        (18.0 - np.sqrt(30.0)) / 36.0,
-                        (18.0 - np.sqrt(30.0)) / 36.0,
-                        (18.0 + np.sqrt(30.0)) / 36.0,
-                        (18.0 + np.sqrt(30.0)) / 36.0,
-                        (18.0 - np.sqrt(30.0)) / 36.0,
-                        (18.0 - np.sqrt(30.0)) / 36.0,
-                        (18.0 + np.sqrt(30.0)) / 36.0,
-                        (18.0 + np.sqrt(30.0)) / 36.0,
-                        (18.0 - np.sqrt(30.0)) / 36.0,
-                        (18.0 - np.sqrt(30.0)) / 36.0,
-                        (18.0 + np.sqrt(30.0)) / 36.0,
-                        (18.0 + np.sqrt(30.0)) / 36.0,
-                        (18.0 - np.sqrt(30.0)) / 36.0,
+                        (18.0 - np.sqrt(30.0)) * (18.0 - np.sqrt(30.0)) / 1296.0,
+                        (18.0 + np.sqrt(30.0)) * (18.0 - np.sqrt(30.0)) / 1296.0,
+                        (18.0 - np.sqrt(30.0)) * (18.0 + np.sqrt(30.0)) / 1296.0,
+                        (18.0 + np.sqrt(30.0)) * (18.0 + np.sqrt(30.0)) / 1296.0,
+                        (18.0 - np.sqrt(30.0)) * (18.0 - np.sqrt(30.0)) / 1296.0,
+                        (18.0 + np.sqrt(30.0)) * (18.0 - np.sqrt(30.0)) / 1296.0,
+                        (18.0 - np.sqrt(30.0)) * (18.0 + np.sqrt(30.0)) / 1296.0,
+                        (18.0 + np.sqrt(30.0)) * (18.0 + np.sqrt(30.0)) / 1296.0,
+                        (18.0 - np.sqrt(30.0)) * (18.0 - np.sqrt(30.0)) / 1296.0,
+                        (18.0 + np.sqrt(30.0)) * (18.0 - np.sqrt(30.0)) / 1296.0,
+                        (18.0 - np.sqrt(30.0)) * (18.0 + np.sqrt(30.0)) / 1296.0,
+                        (18.0 + np.sqrt(30.0)) * (18.0 + np.sqrt(30.0)) / 1296.0,
+                        (18.0 - np.sqrt(30.0)) * (18.0 - np.sqrt(30.0)) / 1296.0,
+                        (18.0 + np.sqrt(30.0)) * (18.0 - np.sqrt(30.0)) / 1296.0,
+                        (18.0 - np.sqrt(30.0)) * (18.0 + np.sqrt(30.0)) / 1296.0,
+                        (18.0 + np.sqrt(30.0)) * (18.0 + np.sqrt(30.0)) / 1296.0,
                     ]
                 ),
             )
@@ -243,7 +243,7 @@ def gauss(dim: int, order: Union[int, str]) -> tuple[np.ndarray, np.ndarray]:
                     ]
                 ),
                 np.array(
-                    [1.0, 1.0, 1.0, 1.0, 1.0, 1.0, 1.0],
+                    [1.0, 1.0, 1.0, 1.0, 1.0, 1.0, 1.0, 1.0],
                 ),
             )
         elif order == 2:
@@ -293,9 +293,9 @@ def gauss(dim: int, order: Union[int, str]) -> tuple[np.ndarray, np.ndarray]:
                         200.0 / 729.0,
                         320.0 / 729.0,
                         200.0 / 729.0,
-                        125.0 / 729.0,
-                        200.0 / 729.0,
-                        125.0 / 729.0,
+                        320.0 / 729.0,
+                        512.0 / 729.0,
+                        320.0 / 729.0,
                         200.0 / 729.0,
                         320.0 / 729.0,
                         200.0 / 729.0,
